@@ -13,12 +13,17 @@ Proved so far (every world, every consistent answer sequence, any strategy):
   "a package was chosen but we don't have a term." (`C05_no_fault_at_pick`);
 * a provider error is reported only when a callback failed, and `Failure(incompatible version)` only
   after an out-of-set answer (C13's theorems).
-Open: (1) the panic sites inside the satisfier search / conflict resolution / backtrack (need the
-backjump argument; in progress, see DESIGN.md); (2) **termination**: the model is fuelled, all theorems
+* none of the 15 panic sites of the satisfier search, conflict resolution, `prior_cause`, `backtrack`
+  and of the derivation that follows a backjump is reachable (`C05_no_satisfier_panic`: the classical
+  backjump argument — the conflicting incompatibility stays satisfied through resolution steps, the
+  previous satisfier's level is below the satisfier's, the level-1 decision is always the root).
+Open: (1) the remaining sites (arena index, index lookup in unit_propagation, swap_indices / get_range
+bounds, merge_dependents unwraps, tree construction, the debug assertions); (2) **termination**: the model is fuelled, all theorems
 hold for every fuel, and "a bounded number of provider calls" is not proved — covered by the mirrored
 runs only (call budget 50 000, as in the repository's own tests).
 -/
 import PubgrubProofs.PSInvariant
+import PubgrubProofs.SatisfierTheory
 
 namespace Pubgrub.C05
 open Pubgrub
@@ -38,5 +43,25 @@ theorem C05_no_fault_at_pick_partial (W : World P S V M) (hW : W.SetsValid) (deb
     (Solver.step (E := E) s (.picked o)).2 ≠ .fault (.panic "Negative term cannot unwrap positive set") ∧
     (Solver.step (E := E) s (.picked o)).2 ≠ .failure "a package was chosen but we don't have a term." :=
   no_fault_at_pick W hW debug fuel root rv s q o h
+
+theorem C05_no_satisfier_panic (W : World P S V M) (hW : W.SetsValid) (debug : Bool) (fuel : Nat)
+    (root : P) (rv : V) (s : SolverState P S V M Pr) (site : String)
+    (h : Reachable (E := E) W debug fuel root rv (s, .fault (.panic site))) :
+    site ≠ "find_satisfier: Must exist" ∧
+    site ≠ "satisfier: unreachable, the last assignment should have been a decision" ∧
+    site ≠ "must be a decision" ∧
+    site ≠ "satisfier package not in incompat" ∧
+    site ≠ "satisfier_search: max_by_key().unwrap()" ∧
+    site ≠ "find_previous_satisfier: max_by_key().unwrap()" ∧
+    site ≠ "satisfier_search: satisfier_cause.unwrap()" ∧
+    site ≠ "find_previous_satisfier: get(satisfier_package).unwrap()" ∧
+    site ≠ "find_previous_satisfier: satisfied_map.get().unwrap()" ∧
+    site ≠ "find_previous_satisfier: store[cause].get().unwrap()" ∧
+    site ≠ "prior_cause: split_one(package).unwrap()" ∧
+    site ≠ "prior_cause: satisfier_cause_terms.get(package).unwrap()" ∧
+    site ≠ "backtrack: dated_derivations.last().unwrap()" ∧
+    site ≠ "add_derivation should not be called after a decision" ∧
+    site ≠ "add_derivation: store[cause].get(package).unwrap()" :=
+  no_satisfier_panic W hW debug fuel root rv s site h
 
 end Pubgrub.C05
